@@ -231,6 +231,12 @@ func (r *rt) onCommit(ctx context.Context, block interfaces.Block, blockProof []
 }
 func (r *rt) onNewRound(ctx context.Context, newHeight primitives.BlockHeight, prevBlock interfaces.Block, canBeFirstLeader bool) {
 	r.log("cb.round", obj{"h": int(newHeight), "first": canBeFirstLeader})
+	r.gateMu.Lock()
+	hold := r.blockProb["round"] > 0
+	r.gateMu.Unlock()
+	if hold { // the consumer takes its time in the new-round callback (the new term exists, its election timer is armed)
+		r.gate(ctx, "round", int(newHeight), 0)
+	}
 }
 
 // --- election scheduler fake: the driver fires triggers into the main loop
@@ -577,6 +583,8 @@ type rtParams struct {
 	realTimer bool
 	churn     int  // rounds of (election, commit in the next view) after the probe
 	panicSync bool // the cancellation comes from inside a consumer block whose Height() then panics in the main loop
+	staleAtCancel bool // from cancelAt on: as soon as a commit callback is blocked, the election of its (height, view) fires, the
+	// callback is released (the worker moves on: the trigger waiting in its slot is now stale) and Run's context is cancelled at once
 }
 
 // panicBlock: a consumer block whose Height() cancels Run's context and panics (once) - a crash of consumer code
@@ -627,6 +635,9 @@ func runRuntime(p rtParams, runId int) []rtEvent {
 	r := &rt{cl: cl, adv: newAdversary(cl), me: cl.ids[0], rnd: newRand(p.seed + 1), maxOkSync: -1, blocked: map[int]*blockedCall{}, proofs: map[int][]byte{}, elecCh: make(chan *interfaces.ElectionTrigger),
 		blockProb: map[string]int{"committee": rnd.Intn(30), "propose": rnd.Intn(60), "validate": rnd.Intn(60), "commit": rnd.Intn(40)}, ctxOnly: rnd.Intn(70)}
 	atomic.StoreInt32(&r.failCommit, int32(rnd.Intn(25)))
+	if p.staleAtCancel {
+		r.blockProb["commit"] = 70
+	}
 	cfg := &interfaces.Config{InstanceId: clusterInstance, Communication: r, Membership: r, BlockUtils: r,
 		KeyManager: &nodeKeyManager{ring: cl.ring, me: r.me}, ElectionTimeoutOnV0: 3 * time.Millisecond}
 	if !p.realTimer {
@@ -736,7 +747,46 @@ func runRuntime(p rtParams, runId int) []rtEvent {
 	r.updateState(ctx, 0, "driver") // start: sync with genesis
 	maxB, floods := 0, 0
 	for i := 0; i < p.ops; i++ {
-		if i == p.cancelAt || atomic.LoadInt32(&r.hung) != 0 { // an API call that blocked has been reported: nothing more to learn from this run
+		if p.staleAtCancel && i >= p.cancelAt && atomic.LoadInt32(&r.hung) == 0 {
+			r.gateMu.Lock()
+			var bc *blockedCall
+			for _, x := range r.blocked {
+				if x.kind == "commit" && (bc == nil || x.id < bc.id) {
+					bc = x
+				}
+			}
+			r.gateMu.Unlock()
+			if bc != nil {
+				r.log("driver.cancel_with_stale_election", obj{"call": bc.id, "h": bc.h})
+				r.fireElection(false)
+				time.Sleep(2 * time.Millisecond) // the main loop hands the trigger over to the worker's slot
+				r.gateMu.Lock()
+				r.blockProb["round"] = 100 // the worker will be held in the new-round callback of the next height
+				r.gateMu.Unlock()
+				select {
+				case <-bc.release:
+				default:
+					close(bc.release)
+				}
+				for k := 0; k < 100; k++ { // wait for the worker to be held again, in the round it entered by its own commit
+					held := false
+					r.gateMu.Lock()
+					for _, x := range r.blocked {
+						if x.h == bc.h+1 {
+							held = true
+						}
+					}
+					r.gateMu.Unlock()
+					if held {
+						break
+					}
+					time.Sleep(time.Millisecond)
+				}
+				doCancel()
+				r.releaseEverything() // the worker comes back to its select with the cancellation and the stale trigger both ready
+				break
+			}
+		} else if i == p.cancelAt || atomic.LoadInt32(&r.hung) != 0 { // an API call that blocked has been reported: nothing more to learn from this run
 			doCancel()
 			break
 		}
@@ -946,6 +996,10 @@ func cmdRuntime(args []string) int {
 		if i%3 == 0 {
 			p.cancelAt = rnd.Intn(*ops) // cancellation injected at a random point of the run
 			p.panicSync = i%4 == 1
+			p.staleAtCancel = i%2 == 0 // (even run index: the fake scheduler, whose elections the driver can fire at will)
+			if p.staleAtCancel {
+				p.cancelAt = rnd.Intn(*ops / 2)
+			}
 		}
 		evs := runRuntime(p, i)
 		for _, e := range evs {
